@@ -540,7 +540,7 @@ B("C11", "unwrap-on-reproved-obligation", "chalk-recursive/src/fulfill.rs",
   "                    } = self.prove(goal, minimums, should_continue.clone()).unwrap();", "C11.SOLVE-ERRORS-PROPAGATE")
 B("C19", "overlap-error-overwritten", "chalk-solve/src/coherence/solve.rs",
   "                        return Err(CoherenceError::OverlappingImpls(self.trait_id));",
-  "                        if l_id == r_id { return Err(CoherenceError::OverlappingImpls(self.trait_id)); }", "C19.ALL-PAIRS:overlap-error-is-final")
+  "                        if l_id == r_id { return Err(CoherenceError::OverlappingImpls(self.trait_id)); }", "C19.ALL-PAIRS:overlap-outcomes")
 B("C07", "invariant-alias-kept", "chalk-solve/src/infer/unify.rs",
   """            TyKind::Alias(_) => {
                 let ena_var = self.table.new_variable(universe_index);
